@@ -160,18 +160,19 @@ Section HermSpec.
     { induction i as [|i IH]; intros Hi.
       - split; [exact H0|]. intros H1. pose proof (Hrowi 0%nat Hi) as R.
         replace (Nat.ltb 1 k) with true in R by (symmetry; apply Nat.ltb_lt; exact H1).
-        rewrite H0 in R. apply cof_inj. apply (cof_mul_zero (fat be 0)); [apply Hbe; exact H1|].
-        rewrite <- R at 1. replace (fmul F (f0 F) (nth q w (f0 F))) with (f0 F) in R by ring.
-        transitivity (cof (fat al 0) [*] cof (f0 F) [+] cof (fat be 0) [*] cof (uent U 1 q) [+] kz); [|exact R].
-        change (@cof F (f0 F)) with kz. ring.
+        rewrite H0 in R. apply cof_inj. change (@cof F (f0 F)) with kz.
+        apply (cof_mul_zero (fat be 0)); [apply Hbe; exact H1|].
+        transitivity (cof (fmul F (f0 F) (nth q w (f0 F)))).
+        + rewrite <- R. change (@cof F (f0 F)) with kz. ring.
+        + replace (fmul F (f0 F) (nth q w (f0 F))) with (f0 F) by ring. reflexivity.
       - destruct (IH ltac:(lia)) as [Hi0 Hi1]. specialize (Hi1 Hi). split; [exact Hi1|]. intros H1.
         pose proof (Hrowi (S i) Hi) as R.
         replace (Nat.ltb (S (S i)) k) with true in R by (symmetry; apply Nat.ltb_lt; exact H1).
-        rewrite Hi0, Hi1 in R. replace (fmul F (f0 F) (nth q w (f0 F))) with (f0 F) in R by ring.
-        apply cof_inj. apply (cof_mul_zero (fat be (S i))); [apply Hbe; exact H1|].
-        transitivity (cof (fat al (S i)) [*] cof (f0 F) [+] cof (fat be (S i)) [*] cof (uent U (S (S i)) q)
-                      [+] cof (fat be i) [*] cof (f0 F)); [|exact R].
-        change (@cof F (f0 F)) with kz. ring. }
+        rewrite Hi0, Hi1 in R. apply cof_inj. change (@cof F (f0 F)) with kz.
+        apply (cof_mul_zero (fat be (S i))); [apply Hbe; exact H1|].
+        transitivity (cof (fmul F (f0 F) (nth q w (f0 F)))).
+        + rewrite <- R. change (@cof F (f0 F)) with kz. ring.
+        + replace (fmul F (f0 F) (nth q w (f0 F))) with (f0 F) by ring. reflexivity. }
     pose proof (Hcols q q Hq Hq) as Hn. rewrite (delta_refl F) in Hn.
     apply k1_neq_k0. rewrite <- Hn. apply (sumn_zero (Cx F)). intros i Hi.
     rewrite (proj1 (Hall i Hi)). change (@cof F (f0 F)) with kz. ring.
@@ -279,7 +280,7 @@ Section HermSpec.
       change kz with ((fun row : list F => dotu (map cof row) y) []) at 1. rewrite map_nth.
       rewrite (dotu_sumn F k) by (try exact Ly; rewrite map_length; apply Hrow; exact Hi).
       rewrite (nth_lincomb F k) by (try exact us_len; rewrite length_us, Lz; lia). rewrite length_us.
-      apply (sumn_ext (Cx F)). intros q Hq. rewrite nth_map_cof, Hy by exact Hq.
+      apply (sumn_ext (Cx F)). intros q Hq. Set Printing Implicit. Show. rewrite (nth_map_cof F (nth i U [])), Hy by exact Hq.
       rewrite (nth_zipw _ _ _ kz kz) by (unfold cs_h, lams_h; rewrite map_length, seq_length; exact Hq).
       rewrite nth_cs, nth_lams, nth_us, nth_ucol by lia. ring.
   Qed.
